@@ -11,7 +11,7 @@
 Require Import Base Overlap Tables_lexer Lexer Condense TokenInv CondenseInv ParaSplit ParaSplitProofs C12Doc LexSplitProofs LongSentencesSeam
   C12CondSpaces C12CondSuffix C12CondPattern C12CondPatterns3 C12CondInit C12CondQuotes C12LexEnds C12CondSplit
   Tables_c12rules C12RuleShapes C12Merge C12MergeProofs C12Windows C12WindowsProofs C12Main
-  C12Comma C12CommaProofs C12CommaMain C12CommaTotal.
+  C12Comma C12CommaProofs C12CommaMain C12CommaTotal C13Callers C12Currency C12CurrencyProofs.
 From Coq Require Import Sorting.Permutation.
 Import Coq.Strings.String.StringSyntax. (* string literals only *)
 Delimit Scope string_scope with string.
@@ -627,6 +627,149 @@ Check C12_main_complete : forall u,
                  ++ map (shift_lint (length P)) (lints (doc_tokens u) chunk_fn (curated_rules_all unl g0) D)).
 Print Assumptions C12_main_complete.
 
+(* ---------- phase 7: the token invariant under the lints-inside-the-slice condition; CurrencyPlacement's body ---------- *)
+(* the tokens of EVERY plain-English Document cover >= 1 character each and end inside the text (from C02's tiling theorem;
+   no hypothesis on the Unicode record) *)
+Theorem C12_doc_tokens_wf : forall u s, toks_wf (length s) (doc_tokens u s).
+Proof. exact doc_tokens_wf. Qed.
+Check C12_doc_tokens_wf : forall u s, toks_wf (length s) (doc_tokens u s).
+Print Assumptions C12_doc_tokens_wf.
+
+(* on well-formed token lists every (slice, characters) pair `lift` hands to a per-slice body is well-formed: restricting
+   the body to well-formed pairs (guard_wf) changes no iterator-schema instance *)
+Theorem C12_schema_guard_eq : forall p g0 ts src,
+  toks_wf (length src) ts -> schema_rule p (guard_wf g0) ts src = schema_rule p g0 ts src.
+Proof. exact schema_guard_eq. Qed.
+Check C12_schema_guard_eq : forall p g0 ts src,
+  toks_wf (length src) ts -> schema_rule p (guard_wf g0) ts src = schema_rule p g0 ts src.
+Print Assumptions C12_schema_guard_eq.
+
+(* C12_main_complete with condition (b) WEAKENED for all ten bodies: lints inside the slice are demanded only for slices
+   whose tokens are non-empty and lie inside the slice's characters (g0_inside_wf) — the form a faithful body satisfies *)
+Theorem C12_main_wf : forall u,
+  u_whitespace u NL = true -> u_numeric u NL = false -> u_alphabetic u NL = false -> u_lingual u NL = false ->
+  forall (unl : ParaSplit.tok -> bool), (forall n k t, unl (shift_tok n k t) = unl t) ->
+  forall chunk_fn (g0 : String.string -> body),
+  (forall b, In b ro_bodies_expected -> g0_inside_wf (g0 b)) ->
+  forall P D, c12_premise P -> no_leading_nl D ->
+    Permutation (lints (doc_tokens u) chunk_fn (curated_rules_all unl g0) (P ++ D))
+                (lints (doc_tokens u) chunk_fn (curated_rules_all unl g0) P
+                 ++ map (shift_lint (length P)) (lints (doc_tokens u) chunk_fn (curated_rules_all unl g0) D)).
+Proof. exact main_wf. Qed.
+Check C12_main_wf : forall u,
+  u_whitespace u NL = true -> u_numeric u NL = false -> u_alphabetic u NL = false -> u_lingual u NL = false ->
+  forall (unl : ParaSplit.tok -> bool), (forall n k t, unl (shift_tok n k t) = unl t) ->
+  forall chunk_fn (g0 : String.string -> body),
+  (forall b, In b ro_bodies_expected -> g0_inside_wf (g0 b)) ->
+  forall P D, c12_premise P -> no_leading_nl D ->
+    Permutation (lints (doc_tokens u) chunk_fn (curated_rules_all unl g0) (P ++ D))
+                (lints (doc_tokens u) chunk_fn (curated_rules_all unl g0) P
+                 ++ map (shift_lint (length P)) (lints (doc_tokens u) chunk_fn (curated_rules_all unl g0) D)).
+Print Assumptions C12_main_wf.
+
+(* CurrencyPlacement's per-chunk body (C13's three generators on the slice's tokens; ANY currency test, ANY verdict)
+   reports inside every well-formed slice; the unrestricted demand is false for it (C12_currency_needs_wf) *)
+Theorem C12_currency_inside : forall cur wrong, g0_inside_wf (cp_body cur wrong).
+Proof. exact cp_body_inside_wf. Qed.
+Check C12_currency_inside : forall cur wrong, g0_inside_wf (cp_body cur wrong).
+Print Assumptions C12_currency_inside.
+
+(* the CurrencyPlacement row of the rule list denotes remove_overlaps over the chunk schema of the modelled body *)
+Theorem C12_currency_pinned : forall unl cur wrong g0,
+  (ro_bodies_expected = (firstn 7 ro_bodies_left ++ ["CurrencyPlacement"%string] ++ skipn 7 ro_bodies_left)%list) /\
+  (rule_of (with_currency cur wrong g0) "CurrencyPlacement"%string
+   = Some (then_remove_overlaps (schema_rule is_chunk_terminator (cp_body cur wrong)))) /\
+  (nth_error (curated_rules_all unl (with_currency cur wrong g0)) (row_index "CurrencyPlacement"%string struct_rules)
+   = Some (then_remove_overlaps (schema_rule is_chunk_terminator (cp_body cur wrong)))).
+Proof. exact currency_pinned. Qed.
+Check C12_currency_pinned : forall unl cur wrong g0,
+  (ro_bodies_expected = (firstn 7 ro_bodies_left ++ ["CurrencyPlacement"%string] ++ skipn 7 ro_bodies_left)%list) /\
+  (rule_of (with_currency cur wrong g0) "CurrencyPlacement"%string
+   = Some (then_remove_overlaps (schema_rule is_chunk_terminator (cp_body cur wrong)))) /\
+  (nth_error (curated_rules_all unl (with_currency cur wrong g0)) (row_index "CurrencyPlacement"%string struct_rules)
+   = Some (then_remove_overlaps (schema_rule is_chunk_terminator (cp_body cur wrong)))).
+Print Assumptions C12_currency_pinned.
+
+(* the property with CurrencyPlacement modelled: the condition is left for NINE bodies (the sub-rules of the four
+   merge_linters! rules), in the weakened form *)
+Theorem C12_main_currency : forall u,
+  u_whitespace u NL = true -> u_numeric u NL = false -> u_alphabetic u NL = false -> u_lingual u NL = false ->
+  forall (unl : ParaSplit.tok -> bool), (forall n k t, unl (shift_tok n k t) = unl t) ->
+  forall chunk_fn cur wrong (g0 : String.string -> body),
+  (forall b, In b ro_bodies_left -> g0_inside_wf (g0 b)) ->
+  forall P D, c12_premise P -> no_leading_nl D ->
+    let rules := curated_rules_all unl (with_currency cur wrong g0) in
+    Permutation (lints (doc_tokens u) chunk_fn rules (P ++ D))
+                (lints (doc_tokens u) chunk_fn rules P
+                 ++ map (shift_lint (length P)) (lints (doc_tokens u) chunk_fn rules D)).
+Proof. exact main_currency. Qed.
+Check C12_main_currency : forall u,
+  u_whitespace u NL = true -> u_numeric u NL = false -> u_alphabetic u NL = false -> u_lingual u NL = false ->
+  forall (unl : ParaSplit.tok -> bool), (forall n k t, unl (shift_tok n k t) = unl t) ->
+  forall chunk_fn cur wrong (g0 : String.string -> body),
+  (forall b, In b ro_bodies_left -> g0_inside_wf (g0 b)) ->
+  forall P D, c12_premise P -> no_leading_nl D ->
+    let rules := curated_rules_all unl (with_currency cur wrong g0) in
+    Permutation (lints (doc_tokens u) chunk_fn rules (P ++ D))
+                (lints (doc_tokens u) chunk_fn rules P
+                 ++ map (shift_lint (length P)) (lints (doc_tokens u) chunk_fn rules D)).
+Print Assumptions C12_main_currency.
+
+(* the blanket PatternLinter body (run_on_chunk: cursor loop, ANY pattern, ANY match_to_lint that takes its span from one
+   matched token or from the hull of a sub-slice of the match) reports inside every well-formed slice *)
+Theorem C12_pattern_body_inside : forall matches report, g0_inside_wf (pat_body matches report).
+Proof. exact pat_body_inside_wf. Qed.
+Check C12_pattern_body_inside : forall matches report, g0_inside_wf (pat_body matches report).
+Print Assumptions C12_pattern_body_inside.
+
+(* the table side (recomputed on every run): the nine sub-rules with the place their lint span comes from; the merged rows
+   denote remove_overlaps over the chunk schemas of the modelled bodies; all ten remove_overlaps bodies are modelled *)
+Theorem C12_bodies_pinned : forall unl cur wrong matches report g0,
+  (map (fun e => (fst e, decode_sel (snd e))) match_span_raw = match_span_expected) /\
+  (map fst match_span_raw = ro_bodies_left) /\
+  (rule_of (all_bodies cur wrong matches report g0) "HopHope"%string
+   = Some (merge_rule [schema_rule is_chunk_terminator (pat_body (matches "ToHop"%string) (report "ToHop"%string));
+                       schema_rule is_chunk_terminator (pat_body (matches "ToHope"%string) (report "ToHope"%string))])) /\
+  (rule_of (all_bodies cur wrong matches report g0) "CurrencyPlacement"%string
+   = Some (then_remove_overlaps (schema_rule is_chunk_terminator (cp_body cur wrong)))) /\
+  (length (curated_rules_all unl (all_bodies cur wrong matches report g0)) = 74) /\
+  (forallb (fun b => orb (String.eqb b "CurrencyPlacement"%string) (existsb (String.eqb b) ro_bodies_left)) ro_bodies_expected = true).
+Proof. exact bodies_pinned. Qed.
+Check C12_bodies_pinned : forall unl cur wrong matches report g0,
+  (map (fun e => (fst e, decode_sel (snd e))) match_span_raw = match_span_expected) /\
+  (map fst match_span_raw = ro_bodies_left) /\
+  (rule_of (all_bodies cur wrong matches report g0) "HopHope"%string
+   = Some (merge_rule [schema_rule is_chunk_terminator (pat_body (matches "ToHop"%string) (report "ToHop"%string));
+                       schema_rule is_chunk_terminator (pat_body (matches "ToHope"%string) (report "ToHope"%string))])) /\
+  (rule_of (all_bodies cur wrong matches report g0) "CurrencyPlacement"%string
+   = Some (then_remove_overlaps (schema_rule is_chunk_terminator (cp_body cur wrong)))) /\
+  (length (curated_rules_all unl (all_bodies cur wrong matches report g0)) = 74) /\
+  (forallb (fun b => orb (String.eqb b "CurrencyPlacement"%string) (existsb (String.eqb b) ro_bodies_left)) ro_bodies_expected = true).
+Print Assumptions C12_bodies_pinned.
+
+(* the property with ALL TEN remove_overlaps bodies modelled (CurrencyPlacement + the blanket impl, arbitrary pattern and
+   match_to_lint per sub-rule): NO lints-inside-the-slice hypothesis is left *)
+Theorem C12_main_bodies : forall u,
+  u_whitespace u NL = true -> u_numeric u NL = false -> u_alphabetic u NL = false -> u_lingual u NL = false ->
+  forall (unl : ParaSplit.tok -> bool), (forall n k t, unl (shift_tok n k t) = unl t) ->
+  forall chunk_fn cur wrong matches report (g0 : String.string -> body),
+  forall P D, c12_premise P -> no_leading_nl D ->
+    let rules := curated_rules_all unl (all_bodies cur wrong matches report g0) in
+    Permutation (lints (doc_tokens u) chunk_fn rules (P ++ D))
+                (lints (doc_tokens u) chunk_fn rules P
+                 ++ map (shift_lint (length P)) (lints (doc_tokens u) chunk_fn rules D)).
+Proof. exact main_bodies. Qed.
+Check C12_main_bodies : forall u,
+  u_whitespace u NL = true -> u_numeric u NL = false -> u_alphabetic u NL = false -> u_lingual u NL = false ->
+  forall (unl : ParaSplit.tok -> bool), (forall n k t, unl (shift_tok n k t) = unl t) ->
+  forall chunk_fn cur wrong matches report (g0 : String.string -> body),
+  forall P D, c12_premise P -> no_leading_nl D ->
+    let rules := curated_rules_all unl (all_bodies cur wrong matches report g0) in
+    Permutation (lints (doc_tokens u) chunk_fn rules (P ++ D))
+                (lints (doc_tokens u) chunk_fn rules P
+                 ++ map (shift_lint (length P)) (lints (doc_tokens u) chunk_fn rules D)).
+Print Assumptions C12_main_bodies.
+
 (* ---------- non-vacuity ---------- *)
 
 (* ---------- one rule body: LongSentences as repaired by 1bab09f (finding FC12a) ---------- *)
@@ -863,3 +1006,45 @@ Example C12_comma_total_needs_premises :
      ParaSplit.mktok (mkspan 2 3) KComma; ParaSplit.mktok (mkspan 3 4) ParaSplit.KWord] [97; 32; 44; 98]%N
   = Ok [mklint (mkspan 1 3) 21].
 Proof. exact comma_total_needs. Qed.
+
+(* non-vacuity of phase 7: `It cost 5 $ 5 more.` blank line | `A 7$, $7 b` through the lexer + Document::parse model: P's
+   chunk yields two overlapping candidates, remove_overlaps keeps 8..11; D yields 2..4 and 6..8; glued = separately + 21;
+   every slice handed to the body is a well-formed pair and the guarded body answers the same *)
+Example C12_currency_nonvacuous :
+  let body := cp_body ex_cur ex_wrong in
+  let R := then_remove_overlaps (schema_rule is_chunk_terminator body) in
+  let Rg := then_remove_overlaps (schema_rule is_chunk_terminator (guard_wf body)) in
+  let spans := map (fun l => (lstart l, lend l)) in
+  let doc := doc_tokens c12_ascii_uni in
+  g0_inside_wf body /\
+  spans (schema_rule is_chunk_terminator body (doc ex_cp_P) ex_cp_P) = [(8, 11); (10, 13)] /\
+  spans (R (doc ex_cp_P) ex_cp_P) = [(8, 11)] /\
+  spans (R (doc ex_cp_D) ex_cp_D) = [(2, 4); (6, 8)] /\
+  spans (R (doc (ex_cp_P ++ ex_cp_D)) (ex_cp_P ++ ex_cp_D)) = [(8, 11); (23, 25); (27, 29)] /\
+  Rg (doc (ex_cp_P ++ ex_cp_D)) (ex_cp_P ++ ex_cp_D) = R (doc (ex_cp_P ++ ex_cp_D)) (ex_cp_P ++ ex_cp_D) /\
+  forallb (fun c => match hull c with
+                    | Some sp => wf_pairb (rel_chunk (sstart sp) c) (slice (ex_cp_P ++ ex_cp_D) (sstart sp) (send sp))
+                    | None => false
+                    end) (iter_chunks (doc (ex_cp_P ++ ex_cp_D))) = true.
+Proof. exact currency_example. Qed.
+
+(* the unrestricted g0_inside is FALSE for the faithful body: `5$` as two zero-width tokens at the end of a one-character
+   slice reports 1..1 (start < 1 fails) — a pair `lift` never produces on Document tokens *)
+Example C12_currency_needs_wf :
+  let cur (t : ParaSplit.tok) (_ : text) := true in let wrong (_ : text) (_ _ : nat) := true in
+  cp_body cur wrong [ParaSplit.mktok (mkspan 1 1) ParaSplit.KNumber; ParaSplit.mktok (mkspan 1 1) ParaSplit.KPunct] [53%N]
+  = [mklint (mkspan 1 1) 63] /\
+  ~ g0_inside (cp_body cur wrong).
+Proof. exact cp_body_needs_wf. Qed.
+
+(* non-vacuity of the blanket body on a Document: `to hope on it.` blank line, pattern = a word and the two tokens behind it *)
+Example C12_pattern_body_nonvacuous :
+  let spans := map (fun l => (lstart l, lend l)) in
+  let doc := doc_tokens c12_ascii_uni ex_pat_P in
+  let b1 := pat_body ex_matches (fun _ _ => Some (SelTok 2, 7)) in
+  let b2 := pat_body ex_matches (fun _ _ => Some (SelHull 0 None, 7)) in
+  g0_inside_wf b1 /\ g0_inside_wf b2 /\
+  spans (schema_rule is_chunk_terminator b1 doc ex_pat_P) = [(3, 7); (11, 13)] /\
+  spans (schema_rule is_chunk_terminator b2 doc ex_pat_P) = [(0, 7); (8, 13)] /\
+  schema_rule is_chunk_terminator (guard_wf b2) doc ex_pat_P = schema_rule is_chunk_terminator b2 doc ex_pat_P.
+Proof. exact pattern_example. Qed.
